@@ -20,12 +20,16 @@
 (*      C4b ... and exactly the most recent one whenever the controller      *)
 (*          decided (packet-in) or no OLDER cached flow covers the traffic   *)
 (*      C5  no buffer is left occupied                                       *)
-(*    "Seen" = seen by the controller as the source of a packet-in (a frame  *)
-(*    forwarded by a cached flow is not a sighting); a cached flow is OLDER  *)
-(*    (stale) once its destination was sighted again after its installation.*)
-(*    One refinement: a frame addressed to its own source is judged as if    *)
-(*    its source had just been seen on the ingress port (an ideal bridge     *)
-(*    learns from the frame in hand first), whoever handled it.              *)
+(*    "Seen" = seen IN THE NETWORK: every arrival of a frame at a port of    *)
+(*    the switch is a sighting of its source address on that port, whether   *)
+(*    the controller or a cached flow handles the frame (the frame in hand   *)
+(*    counts before it is forwarded, as in an ideal bridge).  A cached flow  *)
+(*    is OLDER once its destination address has appeared on another port     *)
+(*    than the one it was on when the flow was installed, i.e. the flow was  *)
+(*    installed before the sighting that made the most recent port the most  *)
+(*    recent one.  What the CONTROLLER knows (ctl) is design-layer state: a  *)
+(*    cached flow that hides a host's move from the controller makes later   *)
+(*    controller decisions violate C4b.                                      *)
 (*    The cache itself is free: which flows are installed, how broad they    *)
 (*    are and when they disappear is NOT constrained (Apply just follows     *)
 (*    inst / tbl).  Timeouts appear nowhere in this layer.                   *)
@@ -34,7 +38,8 @@
 (*    pox.forwarding.l2_learning on an OpenFlow 1.0 switch - packet-in on a  *)
 (*    table miss, learn, drop / flood / install exact-match flow (idle 10,   *)
 (*    hard 30) and forward, 10 s drop flow when the destination lives on the *)
-(*    ingress port, every buffer released.  It is a closed deterministic     *)
+(*    ingress port, the flows of a source that shows up on a new port are    *)
+(*    deleted, every buffer released.  It is a closed deterministic          *)
 (*    model; TLC checks on all its histories that every hop it produces      *)
 (*    satisfies HopOK (action property Conforms) - i.e. that this design IS  *)
 (*    an ideal learning bridge - and exports its behaviours as test inputs.  *)
@@ -59,6 +64,7 @@ CONSTANTS NS,        \* switches 1..NS
           Sweeps,    \* subset of BOOLEAN: Tick with / without the switches' expiry sweep
           Caches,    \* subset of BOOLEAN: controller installs a flow on a known destination / does not
           DropInPort,\* BOOLEAN: the drop flow is restricted to the ingress port (design) or not (as built)
+          DeleteOnMove,\* BOOLEAN: a packet-in from a known source on a new port deletes that source's flows
           IdleTO, HardTO, DropTO,
           D          \* export depth
 
@@ -73,12 +79,13 @@ LinkEnds == DOMAIN LinkPeer
 Cap == HardTO + 1    \* ages saturate here
 
 VARIABLES at,      \* [Hosts -> <<s,p>>]
-          seen,    \* [Switches -> [Hosts -> [ports : SUBSET Ports, last : 0..NP]]] controller sightings
+          seen,    \* [Switches -> [Hosts -> [ports : SUBSET Ports, last : 0..NP]]] sightings in the network
+          ctl,     \* [Switches -> [Hosts -> 0..NP]] what the controller learned (packet-in sources)
           flows,   \* [Switches -> set of cached flows]
           bufs,    \* [Switches -> occupied packet buffers at quiescence]
           last,    \* observation of the last action
           hist     \* all observations (export only)
-svars == <<at, seen, flows, bufs>>
+svars == <<at, seen, ctl, flows, bufs>>
 vars  == <<svars, last, hist>>
 view  == <<svars, last>>
 viewE == svars
@@ -96,20 +103,15 @@ Filtered(f) == f.sh = "l" \/ f.dst = FILT
 Group(f)    == f.dst \in {BCAST, MCAST}
 
 Learn(sn, m, i) == [sn EXCEPT ![m] = [ports |-> @.ports \cup {i}, last |-> i]]
-\* a new sighting of m makes every cached flow towards m an OLDER flow
+\* m appearing on another port makes every cached flow towards m an OLDER flow
 Outdate(F, m) == {[fl EXCEPT !.stale = @ \/ fl.dst \in {0, m}] : fl \in F}
 
 ----------------------------------------------------------------------------
 (* PROPERTY layer                                                            *)
 
-\* state of switch s as the hop's decision sees it: learning comes first
-SeenAt(s, i, f, hp)  == IF hp.pktin > 0 THEN Learn(seen[s], f.src, i) ELSE seen[s]
-\* ... and as the JUDGEMENT of the hop sees it: a frame addressed to its own
-\* source shows, by itself, that this address now lives on the ingress port
-\* (an ideal bridge learns from the frame in hand before it forwards it), no
-\* matter whether the controller or a cached flow handled it
-SeenBy(s, i, f, hp)  == IF hp.pktin > 0 \/ f.dst = f.src THEN Learn(seen[s], f.src, i) ELSE seen[s]
-FlowsAt(s, i, f, hp) == IF hp.pktin > 0 THEN Outdate(flows[s], f.src) ELSE flows[s]
+\* the frame in hand is a sighting of its source on the ingress port
+SeenAt(s, i, f)  == Learn(seen[s], f.src, i)
+FlowsAt(s, i, f) == IF seen[s][f.src].last # i THEN Outdate(flows[s], f.src) ELSE flows[s]
 Known(sn, f) == f.dst \in Hosts /\ sn[f.dst].last # 0
 
 \* the clauses; sn = sightings, known / older as seen by this hop
@@ -122,9 +124,9 @@ C4b(i, f, hp, sn, known, older) ==
 C5(hp)                  == hp.buf = 0
 
 Judge(s, i, f, hp) ==
-  LET sn    == SeenBy(s, i, f, hp)
+  LET sn    == SeenAt(s, i, f)
       known == Known(sn, f)
-      older == \E fl \in FlowsAt(s, i, f, hp) : Covers(fl, i, f) /\ fl.stale
+      older == \E fl \in FlowsAt(s, i, f) : Covers(fl, i, f) /\ fl.stale
   IN [c1 |-> C1(i, hp), c2 |-> C2(f, hp), c3 |-> C3(i, f, hp, known),
       c4a |-> C4a(f, hp, sn, known), c4b |-> C4b(i, f, hp, sn, known, older), c5 |-> C5(hp)]
 HopOK(s, i, f, hp) ==
@@ -154,7 +156,7 @@ MkFlow(x) == [inp |-> x.inp, src |-> x.src, dst |-> x.dst, shs |-> x.shs, out |-
 FreshOf(p) == [inp |-> p.inp, src |-> p.src, dst |-> p.dst, shs |-> p.shs, out |-> {},
                ito |-> 0, hto |-> 0, age |-> 0, idle |-> 0, stale |-> FALSE]
 FlowsAfter(s, i, f, hp) ==
-  LET f1 == FlowsAt(s, i, f, hp)
+  LET f1 == FlowsAt(s, i, f)
       f2 == IF hp.pktin = 0
             THEN {IF Covers(fl, i, f) THEN [fl EXCEPT !.idle = 0] ELSE fl : fl \in f1}
             ELSE f1
@@ -169,7 +171,9 @@ Reached(hops) == {hp.s : hp \in hops}
 \* a frame from host h, as observed: guard = the property, effect = history
 Effect(f, hops) ==
   /\ seen' = [s \in Switches |-> IF s \in Reached(hops)
-                THEN SeenAt(s, HopAt(hops, s).i, f, HopAt(hops, s)) ELSE seen[s]]
+                THEN SeenAt(s, HopAt(hops, s).i, f) ELSE seen[s]]
+  /\ ctl' = [s \in Switches |-> IF s \in Reached(hops) /\ HopAt(hops, s).pktin > 0
+                THEN [ctl[s] EXCEPT ![f.src] = HopAt(hops, s).i] ELSE ctl[s]]
   /\ flows' = [s \in Switches |-> IF s \in Reached(hops)
                 THEN FlowsAfter(s, HopAt(hops, s).i, f, HopAt(hops, s)) ELSE flows[s]]
   /\ bufs' = [s \in Switches |-> IF s \in Reached(hops) THEN HopAt(hops, s).buf ELSE bufs[s]]
@@ -189,7 +193,7 @@ TickObs(d, tbls) ==
         LET aged == {Older(fl, d) : fl \in flows[s]}
             kept == {fl \in aged : Pat(fl) \in tbls[s]}
         IN kept \cup {FreshOf(p) : p \in tbls[s] \ Pats(kept)}]
-  /\ UNCHANGED <<at, seen, bufs>>
+  /\ UNCHANGED <<at, seen, ctl, bufs>>
 
 ----------------------------------------------------------------------------
 (* DESIGN layer                                                              *)
@@ -210,9 +214,11 @@ DesignHop(s, i, f, cache) ==
            inst |-> {}, tbl |-> Pats(flows[s]), buf |-> 0,
            via |-> IF fl.stale THEN "older-flow" ELSE IF fl.out = {} THEN "drop-flow" ELSE "flow"]
   ELSE \* table miss: packet-in; the controller learns, then decides
-       LET sn    == Learn(seen[s], f.src, i)
-           known == Known(sn, f)
-           p     == IF known THEN sn[f.dst].last ELSE 0
+       LET cn    == [ctl[s] EXCEPT ![f.src] = i]
+           known == f.dst \in Hosts /\ cn[f.dst] # 0
+           p     == IF known THEN cn[f.dst] ELSE 0
+           gone  == IF DeleteOnMove /\ ctl[s][f.src] \notin {0, i}
+                    THEN {fl \in flows[s] : fl.src = f.src} ELSE {}
            out   == IF Filtered(f) THEN {}
                     ELSE IF Group(f) \/ ~known THEN Ports \ {i}
                     ELSE {p} \ {i}
@@ -221,7 +227,7 @@ DesignHop(s, i, f, cache) ==
                     THEN {NewFlow(IF DropInPort THEN i ELSE 0, f, {}, DropTO, DropTO)}
                     ELSE {NewFlow(i, f, {p}, IdleTO, HardTO)}
        IN [s |-> s, i |-> i, pktin |-> 1, out |-> out, dup |-> 0, mod |-> 0,
-           inst |-> inst, tbl |-> Pats(flows[s]) \cup Pats(inst), buf |-> 0,
+           inst |-> inst, tbl |-> Pats(flows[s] \ gone) \cup Pats(inst), buf |-> 0,
            via |-> IF Filtered(f) THEN "filtered" ELSE IF Group(f) \/ ~known THEN "flood"
                    ELSE IF p = i THEN "same-port" ELSE "forward"]
 
@@ -242,6 +248,7 @@ Brief(hops) == {[s |-> hp.s, i |-> hp.i, pktin |-> hp.pktin, out |-> hp.out] : h
 
 Init == /\ at = InitAt
         /\ seen = [s \in Switches |-> [m \in Hosts |-> [ports |-> {}, last |-> 0]]]
+        /\ ctl = [s \in Switches |-> [m \in Hosts |-> 0]]
         /\ flows = [s \in Switches |-> {}]
         /\ bufs = [s \in Switches |-> 0]
         /\ last = NoObs /\ hist = <<>>
@@ -257,7 +264,7 @@ Send(h, dst, sh, cache) ==
 Move(h, sp) ==
   /\ sp # at[h]
   /\ at' = [at EXCEPT ![h] = sp]
-  /\ UNCHANGED <<seen, flows, bufs>>
+  /\ UNCHANGED <<seen, ctl, flows, bufs>>
   /\ Log("Move", [h |-> h, s |-> sp[1], p |-> sp[2]], [x |-> 0], {})
 
 Tick(d, sweep) ==
@@ -297,9 +304,15 @@ TypeOK ==
   /\ \A s \in Switches, m \in Hosts :
         /\ seen[s][m].ports \subseteq Ports /\ seen[s][m].last \in {0} \cup seen[s][m].ports
         /\ (seen[s][m].last = 0) = (seen[s][m].ports = {})
+        /\ ctl[s][m] \in {0} \cup seen[s][m].ports
   /\ \A s \in Switches : \A fl \in flows[s] :
         /\ fl.inp \in {0} \cup Ports /\ fl.out \subseteq Ports
         /\ fl.age \in 0..Cap /\ fl.idle \in 0..fl.age
+
+\* the controller always knows the port an address was last seen on: no
+\* cached flow of the design hides a move
+CtlTrue == (DropInPort /\ DeleteOnMove) =>
+             \A s \in Switches, m \in Hosts : ctl[s][m] = seen[s][m].last
 
 \* C5 as a state invariant
 NoLeak == \A s \in Switches : bufs[s] = 0
